@@ -4,6 +4,7 @@ from __future__ import annotations
 import asyncio
 
 from graphql import execute
+from graphql.pyutils import AbortController
 
 from sim import alloc
 from sim.harness import Request
@@ -41,11 +42,18 @@ def run_async(scn, sched_tape, step_cap=None):
     al = alloc.SimAllocator(policy, sched_tape)
     reqs = [Request(sim, i, scn.world, rs.planner) for i, rs in enumerate(scn.requests)]
     results = [None] * len(reqs)
+    # knob: an abort signal that is passed but never triggered (every awaitable is then raced
+    # against it in a task of its own: other code paths, same required response)
+    idle_signal = sched_tape.draw(4, "idle_signal") == 0
+    sim.idle_signal = idle_signal
+    controllers = [AbortController() if idle_signal else None for _ in reqs]
 
     async def one(i):
         rs = scn.requests[i]
         try:
-            res = execute(scn.world.schema, rs.doc, rs.root, reqs[i], rs.variables, rs.opname)
+            kw = {"abort_signal": controllers[i].signal} if idle_signal else {}
+            res = execute(scn.world.schema, rs.doc, rs.root, reqs[i], rs.variables, rs.opname,
+                          **kw)
             if asyncio.iscoroutine(res) or isinstance(res, asyncio.Future):
                 res = await res
             results[i] = (res.formatted, None)
@@ -248,6 +256,8 @@ def run_unit(seed=None, unit=None, tier="quick", stats=None):
             stats["fires"] = stats.get("fires", 0) + sim.fire_count
             bump(stats, "modes", sim.mode)
             bump(stats, "ext_hist", min(len(sim.externals), 40))
+            bump(stats, "knobs", "abort_signal_passed_never_triggered",
+                 1 if getattr(sim, "idle_signal", False) else 0)
             bump(stats, "probes", "address_reuse_injected", al.reuses)
             bump(stats, "probes", "runs_with_address_reuse", 1 if al.reuses else 0)
             kinds = {e.kind for e in sim.externals}
